@@ -57,6 +57,26 @@ def sc_net(seed):
     if len(mv) >= 2 and B(0.3):
         a, b = g.rng.choice(mv, 2, replace=False)
         pp.create_impedance(net, int(a), int(b), rft_pu=R(0.001, 0.05), xft_pu=R(0.01, 0.1), sn_mva=R(5, 50))
+    # zero-sequence data (only used by fault="1ph")
+    net.line["r0_ohm_per_km"] = net.line.r_ohm_per_km.values * R(2, 4)
+    net.line["x0_ohm_per_km"] = net.line.x_ohm_per_km.values * R(2, 4)
+    net.line["c0_nf_per_km"] = net.line.c_nf_per_km.values * 0.6
+    for col in ("x0x_max", "x0x_min"):
+        net.ext_grid[col] = R(0.5, 3)
+    for col in ("r0x0_max", "r0x0_min"):
+        net.ext_grid[col] = R(0.1, 0.5)
+    yzn = B(0.2)
+    net.trafo["vector_group"] = [C(["Dyn", "YNyn", "Yzn"] if yzn else ["Dyn", "YNyn"]) for _ in range(len(net.trafo))]
+    net.trafo["vk0_percent"] = net.trafo.vk_percent.values * R(0.8, 1.0)
+    net.trafo["vkr0_percent"] = net.trafo.vkr_percent.values * R(0.8, 1.0)
+    net.trafo["mag0_percent"] = 100.
+    net.trafo["mag0_rx"] = 0.
+    net.trafo["si0_hv_partial"] = 0.9
+    if len(net.trafo3w):
+        for s_ in ("hv", "mv", "lv"):
+            net.trafo3w["vk0_%s_percent" % s_] = net.trafo3w["vk_%s_percent" % s_].values
+            net.trafo3w["vkr0_%s_percent" % s_] = net.trafo3w["vkr_%s_percent" % s_].values
+        net.trafo3w["vector_group"] = "YNyd"
     return net, profile, g
 
 
@@ -64,17 +84,16 @@ def try_sc(net, **kw):
     try:
         sc.calc_sc(net, **kw)
         return "ok", None
+    except np.linalg.LinAlgError as e:
+        return "singular", e
     except Exception as e:  # noqa
         return "exc", e
 
 
 def kappa_ref(net, case, tol, zf, method, bus):
-    """reference peak factor at bus for topology='radial' (R/X of Zk) or method C (equivalent frequency fc = 0.4 f)"""
+    """reference peak factor at bus for method C (equivalent frequency fc = 0.4 f)"""
     def k(rx):
         return 1.02 + 0.98 * np.exp(-3 * rx)
-    if method == "radial":
-        z = iec60909.Model(net, case, tol).thevenin()[bus] + zf
-        return k(z.real / z.imag)
     zc = iec60909.Model(net, case, tol, peak=True, f_scale=0.4).thevenin()[bus] + complex(zf.real, zf.imag)
     return k(zc.real / zc.imag * 0.4)
 
@@ -82,7 +101,9 @@ def kappa_ref(net, case, tol, zf, method, bus):
 def run_case(seed, tier, case_no):
     net, profile, g = sc_net(seed)
     case = g.C(["max", "min"])
-    fault = g.C(["3ph", "3ph", "2ph"])
+    fault = g.C(["3ph", "3ph", "3ph", "2ph", "2ph", "1ph"])
+    if fault == "1ph" and len(net.impedance):
+        net.impedance.drop(net.impedance.index, inplace=True)       # no zero-sequence data for impedance elements
     tol = g.C([10, 10, 6])
     opts = dict(case=case, fault=fault, lv_tol_percent=tol, ip=True, ith=g.B(0.5))
     if g.B(0.3):
@@ -127,15 +148,21 @@ def run_case(seed, tier, case_no):
         extra["rows"] += 1
         c = iec60909.c_factor(float(un.at[b]), case, tol)
         zk = complex(r.rk_ohm, r.xk_ohm)
-        div = np.sqrt(3) if fault == "3ph" else 2.
+        div = np.sqrt(3) if fault != "2ph" else 2.
         ik1 = c * un.at[b] / (div * abs(zk))
-        if not current_sources:
+        if fault == "1ph":
+            z0 = complex(r.rk0_ohm, r.xk0_ohm)
+            ik1 = np.sqrt(3) * c * un.at[b] / abs(2 * zk + z0)
+            if not current_sources and np.isfinite(abs(z0)):
+                note("ikss_ka != sqrt(3)*c*Un/|2*Zk+Zk0| (1ph)", abs(r.ikss_ka - ik1) / ik1, b, ikss_ka=r.ikss_ka, expected=ik1)
+        elif not current_sources:
             note("ikss_ka != c*Un/(%s*|rk+jxk|)" % ("sqrt(3)" if fault == "3ph" else "2"), abs(r.ikss_ka - ik1) / ik1, b,
                  ikss_ka=r.ikss_ka, expected=ik1)
         elif r.ikss_ka < ik1 * (1 - RTOL):
             note("ikss_ka smaller than the voltage-source contribution", (ik1 - r.ikss_ka) / ik1, b, ikss_ka=r.ikss_ka, expected=ik1)
-        sk = (np.sqrt(3) if fault == "3ph" else 1 / np.sqrt(3)) * un.at[b] * r.ikss_ka
-        note("skss_mw != sqrt(3)*Un*ikss (3ph) / Un*ikss/sqrt(3) (2ph)", abs(r.skss_mw - sk) / sk, b, skss_mw=r.skss_mw, expected=sk)
+        if "skss_mw" in rows.columns:
+            sk = (np.sqrt(3) if fault == "3ph" else 1 / np.sqrt(3)) * un.at[b] * r.ikss_ka
+            note("skss_mw != sqrt(3)*Un*ikss (3ph) / Un*ikss/sqrt(3) (2ph)", abs(r.skss_mw - sk) / sk, b, skss_mw=r.skss_mw, expected=sk)
         if b in ref:
             extra["ref_rows"] += 1
             zr = ref[b] + zf
@@ -147,18 +174,21 @@ def run_case(seed, tier, case_no):
             else:
                 note("Thevenin impedance rk+jxk differs from the reference network", err, b, zk=[zk.real, zk.imag],
                      expected=[zr.real, zr.imag])
+        elif r.ikss_ka > 1e-9:
+            note("short-circuit current at a bus that is not supplied by any voltage source", np.inf, b, ikss_ka=r.ikss_ka)
         else:
-            note("result at a bus that is not supplied by any external grid", np.inf, b)
-        if not current_sources and np.isfinite(r.ip_ka):
+            tags.add("dead_island_row")      # ikss ~ 0 instead of NaN in an unsupplied island (C07 domain), not judged here
+        if not current_sources and "ip_ka" in rows.columns and np.isfinite(r.ip_ka):
             kappa = r.ip_ka / (np.sqrt(2) * r.ikss_ka)
             if not (1.02 - 1e-9 <= kappa <= 2.0 + 1e-9):
                 note("peak factor ip/(sqrt(2)*ikss) outside [1.02, 2]", abs(kappa - 1.5), b, kappa=kappa)
+    dead_island = len(ref) < int(net.bus.in_service.sum())
     for b in ref:
         if b not in rows.index:
-            note("no result at a bus supplied by an external grid", np.inf, b)
+            note("no result at a bus supplied by a voltage source", np.inf, b)
     # peak factor against the reference for the two documented closed-form variants (sampled buses; no generators for
     # method C because the fictitious generator resistances make the reference ambiguous there)
-    if not current_sources and len(rows):
+    if not current_sources and len(rows) and "ip_ka" in rows.columns and fault != "1ph":
         method = "radial" if opts["topology"] == "radial" else ("C" if opts["kappa_method"] == "C" and not len(net.gen) else None)
         if method:
             tags.add("kappa_ref:" + method)
@@ -166,7 +196,8 @@ def run_case(seed, tier, case_no):
                 b = int(b)
                 if b not in ref:
                     continue
-                kr = kappa_ref(net, case, tol, zf, method, b)
+                kr = kappa_ref(net, case, tol, zf, method, b) if method == "C" else \
+                    1.02 + 0.98 * np.exp(-3 * rows.rk_ohm.at[b] / rows.xk_ohm.at[b])
                 kappa = rows.ip_ka.at[b] / (np.sqrt(2) * rows.ikss_ka.at[b])
                 extra["kappa_ref_rows"] = extra.get("kappa_ref_rows", 0) + 1
                 note("peak factor differs from the documented formula (%s)" % method, abs(kappa - kr) / kr, b, kappa=kappa, expected=kr)
@@ -186,20 +217,62 @@ def run_case(seed, tier, case_no):
             viols.append(common.viol("res_bus_sc has different rows/columns with %s" % name, **wit))
             return
         av, ov = a.values.astype(float), o.values.astype(float)
+        rtol = 1e-7
+        if fault == "1ph":
+            # buses whose zero-sequence network floats (only line capacitances to earth) are badly conditioned: not compared
+            floating = ~(np.abs(a.rk0_ohm.values + 1j * a.xk0_ohm.values) <= 100 * np.abs(a.rk_ohm.values + 1j * a.xk_ohm.values))
+            av, ov = av[~floating], ov[~floating]
+            a, o = a[~floating], o[~floating]
+            rtol = 1e-6
+            if not len(a):
+                return
         if (np.isnan(av) != np.isnan(ov)).any():
             viols.append(common.viol("res_bus_sc has NaN in different cells with %s" % name, **wit))
             return
         d = np.abs(av - ov) / np.maximum(np.abs(av), 1e-12)
-        if np.nanmax(d, initial=0.) > 1e-7:
+        if np.nanmax(d, initial=0.) > rtol:
             i, j = np.unravel_index(np.nanargmax(d), d.shape)
+            mech = None
+            if name.startswith("net.sn_mva") and fault == "1ph" and yzn_active and \
+                    np.nanmax(d[:, [list(a.columns).index(c_) for c_ in ("rk_ohm", "xk_ohm")]], initial=0.) <= rtol:
+                mech = "yzn_zero_sequence_depends_on_sn_mva"
+            if name.startswith("net.sn_mva") and opts["kappa_method"] == "B" and opts["topology"] == "auto" and \
+                    kappa_b_auto_explains(a, o):
+                mech = "kappa_b_auto_depends_on_sn_mva"
             viols.append(common.viol("res_bus_sc.%s at bus %s changes with %s: %.9g vs %.9g" % (
-                a.columns[j], a.index[i], name, av[i, j], ov[i, j]), **wit))
+                a.columns[j], a.index[i], name, av[i, j], ov[i, j]), mechanism=mech, **wit))
 
-    variants = g.rng.permutation(["sn_mva", "inverse_y", "subset", "other_fault"])[:g.I(2, 4)]
+    def kappa_b_auto_explains(a, o):
+        """only ip_ka / ith_ka differ, and in every differing row both peak factors are one of the two values method B can give:
+        clip(kappa(R/X), 1, kmax) and clip(1.15 * kappa(R/X), 1, kmax) - i.e. only the meshed/non-meshed decision flipped"""
+        cols = [c_ for c_ in a.columns if c_ not in ("ip_ka", "ith_ka")]
+        if not np.allclose(a[cols].values.astype(float), o[cols].values.astype(float), rtol=1e-7, atol=0, equal_nan=True):
+            return False
+        for b in a.index[a.ip_ka.notna()]:
+            if abs(a.ip_ka.at[b] - o.ip_ka.at[b]) <= 1e-7 * abs(a.ip_ka.at[b]):
+                continue
+            zk = complex(a.rk_ohm.at[b], a.xk_ohm.at[b])
+            ik1 = iec60909.c_factor(float(un.at[b]), case, tol) * un.at[b] / ((np.sqrt(3) if fault == "3ph" else 2.) * abs(zk))
+            ik2 = a.ikss_ka.at[b] - ik1
+            kb = 1.02 + 0.98 * np.exp(-3 * zk.real / zk.imag)
+            kmax = 1.8 if un.at[b] < 1. else 2.0
+            allowed = [min(max(kb, 1.), kmax), min(max(1.15 * kb, 1.), kmax)]
+            for t_ in (a, o):
+                kap = (t_.ip_ka.at[b] / np.sqrt(2) - ik2) / ik1
+                if min(abs(kap - x) for x in allowed) > 1e-7:
+                    return False
+        return True
+
+    yzn_active = bool(len(net.trafo) and (net.trafo.in_service & (net.trafo.vector_group.str.lower() == "yzn")).any())
+    if fault == "1ph" and yzn_active:
+        tags.add("1ph_yzn")
+    variants = list(g.rng.permutation(["sn_mva", "inverse_y", "subset", "other_fault"])[:g.I(2, 4)])
+    if ((opts["kappa_method"] == "B" and opts["topology"] == "auto") or fault == "1ph") and "sn_mva" not in variants:
+        variants.append("sn_mva")
     for v in variants:
         n2 = copy.deepcopy(net)
         if v == "sn_mva":
-            n2.sn_mva = float(net.sn_mva) * g.C([0.1, 10., 3.7, 100.])
+            n2.sn_mva = float(net.sn_mva) * g.C([0.01, 0.1, 10., 3.7, 100.])
             tags.add("v:sn_mva")
             if try_sc(n2, **opts)[0] == "ok":
                 compare("net.sn_mva = %g instead of %g" % (n2.sn_mva, net.sn_mva), n2)
@@ -220,7 +293,7 @@ def run_case(seed, tier, case_no):
                 compare("bus=%s" % (arg,), n2, buses)
             else:
                 viols.append(common.viol("calc_sc fails for bus=%s" % (arg,), **wit))
-        elif v == "other_fault" and not current_sources:
+        elif v == "other_fault" and not current_sources and fault != "1ph":
             tags.add("v:2ph_3ph")
             o2 = dict(opts, fault="2ph" if fault == "3ph" else "3ph")
             if try_sc(n2, **o2)[0] == "ok":
